@@ -416,7 +416,12 @@ func (g *G) genRep(p *Profile, idx int, approx time.Time, conditional bool) Rep 
 		add("ETag", fmt.Sprintf(`"v%d"`, g.intn(3)))
 	}
 	if g.chance(p.PVary) {
-		add("Vary", g.varyValue())
+		if g.chance(0.15) {
+			// one list split over two field lines
+			hs = append(hs, Hdr{"Vary", []string{g.pick("Accept-Encoding", "X-Custom"), g.pick("Accept-Language", "User-Agent", "X-Other")}})
+		} else {
+			add("Vary", g.varyValue())
+		}
 	}
 	if g.chance(p.PNoCache) {
 		add("X-Secret", fmt.Sprintf("s%d", idx))
